@@ -64,6 +64,50 @@ def _depends_on(res, e, params, depth=0, seen=None):
     return False
 
 
+def ivp_rows_from_kkt(ctx, rule="C17.R10"):
+    """"Accelerations and multipliers reported by the ODE wrapper satisfy the equations of motion and the acceleration-level constraints at
+    EVERY output time": each row of u_dot / la_g / la_gamma / la_c that ScipyIVP.solve returns is the result of the KKT routine evaluated at
+    that row's (t, q, u).  A row copied from somewhere else - the snapshot System.assemble() took (u_dot0, la_g0, ...), which is stale after
+    set_tau(...) or when no consistent initial conditions were requested - satisfies nothing; and the loop over the outputs must start at 0."""
+    rep = ctx.rep
+    fn = ctx.repo.get(IVP, "ScipyIVP.solve")
+    C = f"{IVP}:ScipyIVP.solve"
+    rets = [r.value for r in ast.walk(fn) if isinstance(r, ast.Return) and isinstance(r.value, ast.Call) and (dotted(r.value.func) or "").endswith("Solution")]
+    if not rets:
+        raise AnalysisError(f"{C}: return Solution(...) not found")
+    fields = {k.arg: k.value.id for k in rets[-1].keywords if k.arg in ("u_dot", "la_g", "la_gamma", "la_c") and isinstance(k.value, ast.Name)}
+    if len(fields) < 3:
+        raise AnalysisError(f"{C}: fewer than 3 acceleration-level fields handed to Solution")
+    names = set(fields.values())
+    n = 0
+    for st in ast.walk(fn):
+        if not isinstance(st, ast.Assign):
+            continue
+        tgts = st.targets[0].elts if isinstance(st.targets[0], ast.Tuple) else st.targets
+        hit = [t for t in tgts if isinstance(t, ast.Subscript) and isinstance(t.value, ast.Name) and t.value.id in names]
+        if not hit:
+            continue
+        n += 1
+        from_kkt = isinstance(st.value, ast.Call) and norm_src(st.value.func).startswith("self.") and len(st.value.args) >= 3
+        if from_kkt:
+            # the enclosing loop covers all outputs
+            loop = getattr(st, "_parent", None)
+            while loop is not None and not isinstance(loop, ast.For):
+                loop = getattr(loop, "_parent", None)
+            it = norm_src(loop.iter) if loop is not None else ""
+            partial = loop is not None and isinstance(loop.iter, ast.Call) and norm_src(loop.iter.func) == "range" and len(loop.iter.args) >= 2 and norm_src(loop.iter.args[0]) not in ("0",)
+            if loop is None or partial:
+                rep.bad(rule, C, loop.iter if loop is not None else st, f"the KKT solve `{norm_src(st.value.func)}` runs over `{it}`, not over all outputs: the rows left out are not solutions of "
+                        "the equations of motion at their output time", f"{IVP}:{st.lineno}")
+            else:
+                rep.ok(rule, C, f"rows of {', '.join(norm_src(t.value) for t in hit)} come from {norm_src(st.value.func)}(t_i, q_i, u_i) for every output ({it[:40]})")
+        else:
+            rep.bad(rule, C, st, f"`{norm_src(st)[:70]}` fills a reported row from `{norm_src(st.value)[:40]}` instead of the KKT solve at that output's (t, q, u): a snapshot of the initial "
+                    "accelerations / multipliers is stale after set_tau(...) or without consistent initial conditions, and then violates the equations of motion at t0", f"{IVP}:{st.lineno}")
+    if n < 1:
+        raise AnalysisError(f"{C}: no store into the acceleration-level fields found")
+
+
 def rhs_multiplicity(ctx, rule="C17.R9"):
     """Moreau's step solves ONE linear system  A x = b + (W_N P_N + W_F P_F; 0; 0)  whose lower rows chi_g, chi_gamma make the velocity-level
     bilateral constraints hold at the midpoint.  However the solution is put together (re-solve with an updated right-hand side, or
@@ -219,6 +263,8 @@ def callback_threading(ctx, rule="C17.R8"):
 
 def run(ctx):
     rep = ctx.rep
+    rep.rule("C17.R10", "ScipyIVP: every reported row of u_dot, la_g, la_gamma, la_c is the KKT solve at that output's (t, q, u)", 1)
+    ivp_rows_from_kkt(ctx)
     rep.rule("C17.R9", "Moreau: the stored solution of the step's linear system contains its right-hand side (incl. the constraint rows chi_g, chi_gamma) exactly once", 1)
     rhs_multiplicity(ctx)
     rep.rule("C17.R8", "System.step_callback threads ONE state through all callbacks (overlapping contributions keep the normalisation)", 5)
@@ -520,4 +566,8 @@ NEUTRAL += [
     dict(id="c17-n-r9", canary=True, what="Moreau: correct superposition (contact response on a zero right-hand side)", file=MO,
          edits=[(MO, "                bb = b.copy()\n                bb[: self.nu] += self.W_N @ P_N + self.W_F @ P_F\n", "                bb = np.zeros_like(b)\n                bb[: self.nu] = self.W_N @ P_N + self.W_F @ P_F\n"),
                 (MO, "                x = lu_A.solve(bb)\n", "                x = x0 + lu_A.solve(bb)\n")]),
+]
+MUTANTS += [
+    dict(id="c17-r10-seed", canary=True, what="[seeded by sub-agent] ScipyIVP copies the accelerations / multipliers at t0 from the assembly snapshot", file=IVP,
+         old="        for i, (ti, qi, ui) in enumerate(zip(t, q, u)):\n", new="        u_dot[0] = self.system.u_dot0\n        for i, (ti, qi, ui) in enumerate(zip(t, q, u)):\n", expect="C17.R10"),
 ]
